@@ -9,6 +9,8 @@ Report(v) == IF v = {} THEN TRUE ELSE PrintT(<<"REJECT", l, l, v>>)
 NRegs(ev) == Len(ev.regs)
 RegsOf(ev) == [k \in 0..(NRegs(ev) - 1) |-> VecOf(ev.regs[k + 1])]
 BadEntries(ev) == \E k \in 1..NRegs(ev) : ~EntriesOK(ev.p, ev.regs[k])
+\* every register of a history is a vector over F_p, also one that was default-constructed and then assigned to
+BadModulus(ev) == \E k \in 1..Len(ev.primes) : ev.primes[k] # ev.p
 TPure(ev) ==
   /\ ev.e \in {"Gcd", "Inv", "Prime", "Crash", "GcdBig", "InvBig"}
   /\ UNCHANGED r
@@ -19,13 +21,14 @@ TPure(ev) ==
               [] ev.e = "InvBig" -> (IF ev.threw THEN {"threw-although-invertible"} ELSE InvBigViol(ev))
               [] ev.e = "Crash" -> {"crash"})
 TFPReset(ev) == /\ ev.e = "FP" /\ ev.op = "Reset"
-                /\ Report(IF BadEntries(ev) THEN {"entries-not-canonical"} ELSE {})
+                /\ Report((IF BadEntries(ev) THEN {"entries-not-canonical"} ELSE {}) \cup (IF BadModulus(ev) THEN {"modulus-not-carried-over"} ELSE {}))
                 /\ r' = RegsOf(ev)
 TFPOp(ev) ==
   /\ ev.e = "FP" /\ ev.op # "Reset"
   /\ LET eff == FPEffect(ev.p, r, ev)
          got == RegsOf(ev)
          v ==      (IF BadEntries(ev) THEN {"entries-not-canonical"} ELSE {})
+              \cup (IF BadModulus(ev) THEN {"modulus-not-carried-over"} ELSE {})
               \cup (IF ev.op # "Dot" /\ got[ev.d] # eff.r[ev.d] THEN {"wrong-result-vector"} ELSE {})
               \cup (IF \E k \in DOMAIN got : (ev.op = "Dot" \/ k # ev.d) /\ got[k] # eff.r[k] THEN {"operand-changed"} ELSE {})
               \cup (IF \E k \in 1..NRegs(ev) : ev.sizes[k] # Len(ev.regs[k]) THEN {"size"} ELSE {})
